@@ -110,7 +110,7 @@ def split_responses(data, head_requests=()):
         headers = []
         for ln in lines[1:]:
             n, _, v = ln.decode("latin1").partition(":")
-            headers.append((n, v.strip()))
+            headers.append((n, v.strip(" \t")))   # HTTP optional whitespace only (not NBSP/NEL)
         pos = end + 4
         hd = {n.lower(): v for n, v in headers}
         complete = True
